@@ -38,6 +38,21 @@ pub fn vx_string_len(s: &String) -> (r: usize)
     s.len()
 }
 
+/// str::ends_with(char) on a String (N11)
+#[verifier::external_body]
+pub fn vx_string_ends_with_char(s: &String, c: char) -> (r: bool)
+    ensures
+        r == (s@.len() > 0 && s@.last() == c),
+{
+    s.ends_with(c)
+}
+
+/// str::trim (N11): some substring; nothing else is used
+#[verifier::external_body]
+pub fn vx_str_trim(s: &String) -> (r: &str) {
+    s.trim()
+}
+
 /// str::len in bytes (N11)
 #[verifier::external_body]
 pub fn vx_str_len(s: &str) -> (r: usize)
